@@ -582,6 +582,10 @@ cpc_sketch_alloc<A> cpc_sketch_alloc<A>::deserialize(std::istream& is, uint64_t 
         + std::to_string(compute_seed_hash(seed)));
   }
   check_lg_k(lg_k);
+  if (first_interesting_column > determine_correct_offset(lg_k, num_coupons)) {
+    throw std::invalid_argument("Possible corruption: first interesting column " + std::to_string(first_interesting_column)
+        + " is beyond the window offset");
+  }
   if (num_coupons == 0) kxp = static_cast<double>(1 << lg_k); // the image of an empty sketch carries no HIP fields
   uncompressed_state<A> uncompressed(allocator);
   get_compressor<A>().uncompress(compressed, uncompressed, lg_k, num_coupons);
@@ -678,6 +682,10 @@ cpc_sketch_alloc<A> cpc_sketch_alloc<A>::deserialize(const void* bytes, size_t s
         + std::to_string(compute_seed_hash(seed)));
   }
   check_lg_k(lg_k);
+  if (first_interesting_column > determine_correct_offset(lg_k, num_coupons)) {
+    throw std::invalid_argument("Possible corruption: first interesting column " + std::to_string(first_interesting_column)
+        + " is beyond the window offset");
+  }
   if (num_coupons == 0) kxp = static_cast<double>(1 << lg_k); // the image of an empty sketch carries no HIP fields
   uncompressed_state<A> uncompressed(allocator);
   get_compressor<A>().uncompress(compressed, uncompressed, lg_k, num_coupons);
